@@ -17,8 +17,9 @@ class RequestStreamRequester(StreamHandler, DefaultPublisherSubscription, Reques
         pass
 
     def subscribe(self, subscriber: Subscriber):
-        super().subscribe(subscriber)
+        self._subscriber = subscriber
         self._send_stream_request(self.payload)
+        subscriber.on_subscribe(self)
 
     def cancel(self):
         self.send_cancel()
